@@ -124,4 +124,17 @@ CHECKS["C10"] = {
             "exactly the expected error; all runs are also compared with the model bit for bit.",
     "note": COMMON_NOTE + " Completion / finiteness under the installed pandas / numpy is a property of the runtime libraries: it is sampled, not proved (the model's total "
             "functions say nothing about pandas). Known findings K1b (sizing search raises on ordinary numbers) and K15 (paper copy runs an ungated child stack on the synthetic row)."}
+CHECKS["C11"] = {
+    "category": "other",
+    "technique": "model/implementation correspondence across processes, hash seeds and build/run schedules + machine-checked session theorems (Coq/Rocq)",
+    "text": "Theorems (axiom-free, any number type): in the model of an interpreter session (objects = inputs + has_run + result, commands build / run in any "
+            "order) a finished backtest asked to run again is unchanged, what the session holds for one backtest depends only on the commands addressed to it "
+            "(any interleaving with other backtests, any order), and after build + run(s) it is the pure function `backtest` of that backtest's own inputs. "
+            "Implementation tie: sessions with 2-4 backtests from ONE template and shared frame objects (original / perturbed data on the same tickers and dates / "
+            "flipped position mode / identical twin), random valid interleavings incl. run-again, each session in three processes with different PYTHONHASHSEED and "
+            "each backtest alone in a fresh process: every dump (all history rows, temp traces) must be bit-identical to the fresh-process run and agree with the "
+            "model where it covers the template; deep fingerprints of the template, the frames and the additional data before / after must be unchanged. Templates "
+            "include stateful algos and, with fixed seeds, SelectRandomly / WeighRandomly / WeighERC / WeighInvVol / WeighMeanVar / TargetVol.",
+    "note": COMMON_NOTE + " Hash-seed dependence, aliasing and process-wide state are runtime behaviours that a pure Gallina model cannot exhibit; for them the sessions are a "
+            "differential test (sampled), not a proof. The theorems carry the logical part: purity / run-once of the specification the implementation is compared with."}
 NOT_APPLICABLE = {}
